@@ -56,3 +56,46 @@ def allowed(table, func, base):
         if fnmatch.fnmatchcase(func, fglob) and fnmatch.fnmatchcase(base, bglob):
             return reason
     return None
+
+
+# ---- per-attribute frames of the lexer state (vf/attrframe.py, vf/checks/attrobl.py) ---------------------
+# entries: 'module:function glob' or ('module:function glob', "source of an enclosing if-test")
+
+LEXER_STATE = dict(
+    modules=['calmjs.parse.lexers.es5', 'calmjs.parse.parsers.es5', 'calmjs.parse.asttypes', 'calmjs.parse.lexers.tokens'],
+    writes={
+        # the token history the division/regex decision and ASI consult: only _set_tokens advances it
+        'cur_token_real': ['lexers.es5:Lexer.__init__', 'lexers.es5:Lexer._set_tokens'],
+        'cur_token': ['lexers.es5:Lexer.__init__', 'lexers.es5:Lexer._set_tokens'],
+        'prev_token': ['lexers.es5:Lexer.__init__', 'lexers.es5:Lexer._set_tokens'],
+        'valid_prev_token': ['lexers.es5:Lexer.__init__', 'lexers.es5:Lexer._set_tokens', 'lexers.es5:Lexer.backtracked_token'],
+        'token_stack': ['lexers.es5:Lexer.__init__', 'lexers.es5:Lexer._set_tokens', 'lexers.es5:Lexer._get_update_token'],
+        'next_tokens': ['lexers.es5:Lexer.__init__', 'lexers.es5:Lexer.backtracked_token', 'lexers.es5:Lexer._token',
+                        'lexers.es5:Lexer.auto_semi'],
+    },
+    reads={},
+    reflective_ok=['parsers.es5:Parser.p_identifier_name_string'],
+    why={'*': 'the token history (cur/prev/real token, bracket stack, pushed-back tokens) is advanced only by the functions '
+              'whose contracts say so; any other store invalidates the contracts of _token / auto_semi / backtracked_token'},
+)
+
+COMMENT_CHANNEL = dict(
+    modules=['calmjs.parse.lexers.es5', 'calmjs.parse.parsers.es5', 'calmjs.parse.asttypes', 'calmjs.parse.lexers.tokens',
+             'calmjs.parse.utils'],
+    writes={
+        'hidden_tokens': ['lexers.es5:Lexer.__init__', 'lexers.es5:Lexer.token',
+                          ('lexers.es5:Lexer._token', 'tok.type in COMMENTS')],
+        'with_comments': ['lexers.es5:Lexer.__init__'],
+        'yield_comments': ['lexers.es5:Lexer.__init__'],
+    },
+    reads={
+        # comment capture must not influence which tokens are produced or how they are parsed: the flag and the
+        # collected comments are read only where comments are collected, handed over and attached
+        'hidden_tokens': ['lexers.es5:Lexer.token', ('lexers.es5:Lexer._token', 'tok.type in COMMENTS'), 'asttypes:Node.set_comments'],
+        'with_comments': [('lexers.es5:Lexer._token', 'tok.type in COMMENTS'), 'asttypes:Node.setpos'],
+        'yield_comments': [('lexers.es5:Lexer._token', 'tok.type in COMMENTS')],
+    },
+    reflective_ok=['parsers.es5:Parser.p_identifier_name_string'],
+    why={'*': 'parsing with comment capture accepts the same texts and yields the same tree: nothing outside the comment '
+              'channel may depend on the capture flag or on the comments collected so far'},
+)
